@@ -155,9 +155,11 @@ def expect(mode, o, boolean, doc_kind="ok"):
             return (UNSPEC, UNSPEC, False) if j is UNSPEC else (0, j, False)
         return (UNSPEC, UNSPEC, False)
     if boolean:
+        # "with -b the exit status is 0 iff the result is true, 1 iff it is false, and 2 for any other value or an
+        # evaluation error"; the status of a stream is the worst per-document status, so the rule is per document
         if is_bool:
             return (0 if o[2] else 1, FREE, False)
-        return (UNSPEC, UNSPEC, False)
+        return (2, FREE, False)
     if o[0] == "V":
         j = _value_json(o)
         return (UNSPEC, ("line",), False) if j is UNSPEC else (0, j, False)
@@ -212,10 +214,10 @@ def selftest():
     assert expect("null", P, False) == (1, FREE, True) and expect("doc", P, True, "malformed") == (1, FREE, True)
     assert expect("null", E, False)[0] is UNSPEC
     # test_main_slurp_bool_status: -s -b false -> status 1; process_json_doc tests: malformed -> 3
-    assert expect("doc", F, True)[0] == 1 and expect("doc", T, True)[0] == 0 and expect("doc", one, True)[0] is UNSPEC
+    assert expect("doc", F, True)[0] == 1 and expect("doc", T, True)[0] == 0 and expect("doc", one, True)[:2] == (2, FREE)
     assert expect("doc", one, False, "malformed") == (3, ("empty",), False) and expect("doc", one, False, "empty")[0] is UNSPEC
     assert expect("doc", s, False) == (0, ("json", "\u00e9"), False) and expect("doc", E, False) == (UNSPEC, ("line",), False)
-    assert expect("doc", E, True)[1] is UNSPEC and expect("null", E, False)[1] is UNSPEC
+    assert expect("doc", E, True)[:2] == (2, FREE) and expect("null", E, False)[1] is UNSPEC
     assert stdout_problem(("line",), "null\n") is None and stdout_problem(("line",), "") and stdout_problem(("line",), "a\nb\n") and stdout_problem(("line",), "nope\n")
     assert expect("null", ("V", "double", "7ff0000000000000", "DoubleType"), False)[0] is UNSPEC
     assert expect("null", ("V", "map", ((("int", 1), ("int", 2)),), "MapType"), False)[0] is UNSPEC
